@@ -12,6 +12,11 @@ CLAIMS = {
  "C05": ("Theorems: matrix stencils = divergence of the explicit gradient/mean flux, cell by cell, all classes; TVD zero/unit-limiter identities "
          "(Props/C05.v); 7 correspondence suites; identity probes on the real code; zero-u_upwind edge is a known finding (refuted theorem)", "DESIGN.md 3, 4 (C05)"),
  "C06": ("Theorems: diffusion of a constant is 0, central/upwind/TVD of a constant c is c*div(u) (Props/C06.v); suites + probes incl. sources-only solve", "DESIGN.md 4 (C06)"),
+ "C02": ("PARTIAL: convergence under refinement is not a Coq theorem. Proved (generic field): on uniform spacing the diffusion and central-advection stencils "
+         "reproduce the continuous operator exactly on polynomial families separating every metric factor (Cartesian, cylindrical r incl. the axis cell, "
+         "SphericalGrid1D exact-volume r, angular 1/r^2), SphericalGrid3D radial block with its exact O(h^2) remainder (Props/C02.v); the model is tied to every "
+         "builder by the operator/bc/solve suites; manufactured-solution refinement on the implementation (9 classes x central/upwind x Dirichlet/Robin x "
+         "uniform/graded, 3 resolutions, observed order)", "DESIGN.md 4 (C02)"),
  "C03": ("Theorems: stored boundary values (with_boundaries) satisfy a/h*(difference)+b*(average)=c face by face incl. 1/r, 1/(r sin theta); the solver's "
          "boundary rows encode the same relation; (a,b,c) scale invariance; periodic wrap and the exact residual of the solver's periodic rows "
          "(Props/C03.v); suites bc_ghost, bc_rows, solve, explicit on all classes; Robin-residual probes after the four operations; periodic axis "
@@ -20,6 +25,15 @@ CLAIMS = {
          "data/old values, terms never enter boundary rows (Props/C04.v); the solve suite evaluates the residual of the MODEL system inside Coq at "
          "the real solver's answer for random term lists; probes: identity of the returned object, external solver receives the identical system, "
          "solveMatrixPDE agreement", "DESIGN.md 4 (C04)"),
+ "C07": ("Theorems over R: every solution of a system whose rows are convex combinations plus sink stays within [min(data,0), max(data,0)] (within the data "
+         "range without sink), non-negativity; sign structure of the diffusion and upwind stencils and row sum = div(u); per axis, -diffusion + upwind has "
+         "exactly the convex row shape (Props/C07.v). PARTIAL: ghost-cell elimination and summation over axes linking these to the assembled system are not a "
+         "Coq theorem. Probe: multi-step solves with D contrast 1e8, divergence-free u on every class, dt over 8 decades, Dirichlet/no-flux/periodic; overshoots "
+         "confirmed by exact rational re-solve", "DESIGN.md 4 (C07)"),
+ "C08": ("Theorems (generic field): on a field that does not vary along an axis the block of that axis of diffusion is 0 and of central/upwind advection is "
+         "value*div(u), 0 for invariant velocity (Props/C08.v); model symmetric under axis relabelling/mirroring by construction (one per-axis stencil); per-axis "
+         "correspondence (Mx,My,Mz) of every builder; probes: 7 embedding pairs, Cartesian permutations, mirrors, periodic shifts on the implementation; "
+         "upwind/TVD along a periodic axis is a known finding", "DESIGN.md 4 (C08)"),
  "C09": ("Heap machine Model/State.v (dirty flags of TrackedArrays, ghost cells, cached boundary term, shared BoundaryConditions objects, copy / arithmetic / "
          "explicit-solver results), validated by operation-history correspondence (bounded-exhaustive + random, 5 grid classes). Theorems: in every heap a solve "
          "assembles its boundary equations from the current content (= fresh start), shared objects included; for histories without sharing, clean flags imply "
